@@ -541,6 +541,16 @@ func init() {
 					}
 				}
 				st.addPC("(= " + sv.t + " (+ " + strings.Join(parts, " ") + "))")
+				if big {
+					run := &beRun{val: sv.t}
+					for idx := 0; idx < n; idx++ {
+						run.bytes = append(run.bytes, b[idx].(sym).t)
+					}
+					if st.beRuns == nil {
+						st.beRuns = map[string]*beRun{}
+					}
+					st.beRuns[run.bytes[0]] = run
+				}
 				return nil
 			}
 			x := uint64(asInt64(v))
